@@ -4,7 +4,7 @@
     byte-string fields.  Both the Go harness and this file follow the same field layout, so
     the OCaml driver contains no per-function glue at all. *)
 From Coq Require Import Strings.String.
-From PatVerif Require Import Base.GoSem Model.Quicwire Model.Codecs Model.BatchCodecs Model.Pad.
+From PatVerif Require Import Base.GoSem Model.Quicwire Model.Codecs Model.BatchCodecs Model.Pad Model.Attester Model.AttesterVerify.
 Open Scope N_scope.
 
 Definition nm (s : string) : list byte := list_byte_of_string s.
@@ -167,6 +167,47 @@ Definition dispatch_pad (name : list byte) (a : list (list byte)) : option (list
   else if is name "served" then Some [if served (arg a 0) (skipn 1 a) then st_ok else st_none]
   else None.
 
+(** * Attester: histories of Register / BadVerify / Finalize / Query operations *)
+Definition rd2 (d : list byte) : list byte * list byte :=
+  match read_u16_prefixed d with Some (x, r) => (x, r) | None => ([], []) end.
+Fixpoint run_attester (s : cache) (ops : list (list byte)) : list (list byte) :=
+  match ops with
+  | [] => []
+  | o :: rest =>
+    match o with
+    | c :: d =>
+      if byte_eqb c x52 (* R client *) then st_ok :: run_attester (register s d) rest
+      else if byte_eqb c x42 (* B client: a VerifyRequest that fails: no state change *) then st_none :: run_attester s rest
+      else if byte_eqb c x46 (* F u16p client, u16p idx, anon *) then
+        let '(cl, d1) := rd2 d in let '(idx, anon) := rd2 d1 in
+        match finalize s cl idx anon with
+        | (s', Accept i) => st_ok :: i :: run_attester s' rest
+        | (s', _) => st_none :: run_attester s' rest
+        end
+      else if byte_eqb c x51 (* Q u16p client, idx *) then
+        let '(cl, idx) := rd2 d in
+        match bound s cl idx with Some a => st_ok :: a :: run_attester s rest | None => st_none :: run_attester s rest end
+      else [st_unknown]
+    | [] => [st_unknown]
+    end
+  end.
+
+Definition flag (b : list byte) : bool := negb (bytes_eqb b [x00]).
+Definition dispatch_attester (name : list byte) (a : list (list byte)) : option (list (list byte)) :=
+  if is name "attester_hist" then Some (run_attester init a)
+  else if is name "verify_request" then
+    (* args: key nkid enc sig blind client_key | oracle: parse(key) sigok parse(client) blinded | registered-before *)
+    let r := {| q3_key := arg a 0; q3_nkid := arg a 1; q3_enc := arg a 2; q3_sig := arg a 3 |} in
+    let ck := arg a 5 in
+    let parse_pk := fun x => if bytes_eqb x (q3_key r) then flag (arg a 6) else if bytes_eqb x ck then flag (arg a 8) else false in
+    let s0 : cache := if flag (arg a 10) then fset init ck fresh_cstate else init in
+    let '(res, s', tr) := verify_request parse_pk (fun _ _ _ => flag (arg a 7)) (fun _ _ => arg a 9) s0 r (arg a 4) ck in
+    Some [match res with Ok _ => st_ok | Err => st_none | Panic => st_panic end;
+          if existsb (fun c => match c with CPut _ => true | _ => false end) tr then st_ok else st_none;
+          if registered s' ck then st_ok else st_none;
+          signed_message r]
+  else None.
+
 Definition first_some {A} (l : list (option A)) (d : A) : A :=
   match List.find (fun o => match o with Some _ => true | None => false end) l with
   | Some (Some r) => r | _ => d end.
@@ -174,4 +215,5 @@ Definition first_some {A} (l : list (option A)) (d : A) : A :=
 Definition dispatch (name : list byte) (a : list (list byte)) : list (list byte) :=
   match dispatch_quicwire name a with Some r => r | None =>
   match dispatch_codecs name a with Some r => r | None =>
-  match dispatch_pad name a with Some r => r | None => [st_unknown] end end end.
+  match dispatch_pad name a with Some r => r | None =>
+  match dispatch_attester name a with Some r => r | None => [st_unknown] end end end end.
